@@ -11,7 +11,7 @@
 (* A configuration is a record                                               *)
 (*   st     state stack (1 = start state at the bottom)                      *)
 (*   sy     symbol stack (without the bottom marker)                         *)
-(*   pos    index of the look-ahead in the input; also the number of tokens  *)
+(*   pos    index of the look-ahead in the inp; also the number of tokens  *)
 (*          fetched so far (the parser fetches one token ahead)              *)
 (*   status "run" | "accept" | "error" | "underflow" | "nogoto" | "diverge"  *)
 (*   nred   reductions since the last shift (to bound divergence)            *)
@@ -22,58 +22,61 @@
 EXTENDS LALR, SequencesExt
 
 InitCfg == [st |-> <<1>>, sy |-> <<>>, pos |-> 1, status |-> "run", nred |-> 0, dok |-> TRUE, reds |-> <<>>]
-LaOf(input, c) == IF c.pos > Len(input) THEN End ELSE input[c.pos]
+LaOf(inp, cf) == IF cf.pos > Len(inp) THEN End ELSE inp[cf.pos]
 Top(s) == s[Len(s)]
 MaxRed == 200   \* more consecutive reductions than any terminating run needs on the bounded inputs used
 
-DStep(G, tab, input, c) ==
-  LET la == LaOf(input, c)
-      a  == IF la \in DOMAIN tab.action[Top(c.st)] THEN tab.action[Top(c.st)][la] ELSE ErrAct
+DStep(G, tab, inp, cf) ==
+  LET lah == LaOf(inp, cf)
+      a  == IF lah \in DOMAIN tab.action[Top(cf.st)] THEN tab.action[Top(cf.st)][lah] ELSE ErrAct
   IN
-  IF a.k = "s" THEN [c EXCEPT !.st = Append(@, a.n), !.sy = Append(@, la), !.pos = @ + 1, !.nred = 0]
+  IF a.k = "s" THEN [cf EXCEPT !.st = Append(@, a.n), !.sy = Append(@, lah), !.pos = @ + 1, !.nred = 0]
   ELSE IF a.k = "r" THEN
      LET rhs == Rhs(G, a.n) n == Len(rhs) lhs == Lhs(G, a.n) IN
-     IF Len(c.st) <= n THEN [c EXCEPT !.status = "underflow"]
-     ELSE LET base == SubSeq(c.st, 1, Len(c.st) - n)
+     IF Len(cf.st) <= n THEN [cf EXCEPT !.status = "underflow"]
+     ELSE LET base == SubSeq(cf.st, 1, Len(cf.st) - n)
               gt == IF lhs \in DOMAIN tab.goto[Top(base)] THEN tab.goto[Top(base)][lhs] ELSE 0
-              handleOK == SubSeq(c.sy, Len(c.sy) - n + 1, Len(c.sy)) = rhs
-          IN IF gt = 0 THEN [c EXCEPT !.status = "nogoto"]
-             ELSE IF c.nred >= MaxRed THEN [c EXCEPT !.status = "diverge"]
-             ELSE [c EXCEPT !.st = Append(base, gt),
-                            !.sy = Append(SubSeq(c.sy, 1, Len(c.sy) - n), lhs),
+              handleOK == SubSeq(cf.sy, Len(cf.sy) - n + 1, Len(cf.sy)) = rhs
+          IN IF gt = 0 THEN [cf EXCEPT !.status = "nogoto"]
+             ELSE IF cf.nred >= MaxRed THEN [cf EXCEPT !.status = "diverge"]
+             ELSE [cf EXCEPT !.st = Append(base, gt),
+                            !.sy = Append(SubSeq(cf.sy, 1, Len(cf.sy) - n), lhs),
                             !.nred = @ + 1, !.dok = @ /\ handleOK, !.reds = Append(@, a.n)]
-  ELSE IF a.k = "a" THEN [c EXCEPT !.status = "accept"]
-  ELSE [c EXCEPT !.status = "error"]
+  ELSE IF a.k = "a" THEN [cf EXCEPT !.status = "accept"]
+  ELSE [cf EXCEPT !.status = "error"]
 
 RECURSIVE RunFrom(_, _, _, _)
-RunFrom(G, tab, input, c) == IF c.status # "run" THEN c ELSE RunFrom(G, tab, input, DStep(G, tab, input, c))
-Run(G, tab, input) == RunFrom(G, tab, input, InitCfg)
+RunFrom(G, tab, inp, cf) == IF cf.status # "run" THEN cf ELSE RunFrom(G, tab, inp, DStep(G, tab, inp, cf))
+Run(G, tab, inp) == RunFrom(G, tab, inp, InitCfg)
 
 \* an accepting configuration is sound when the symbol stack is exactly the
-\* start symbol, the whole input was consumed, and every handle was right
-SoundCfg(G, input, c) == c.dok /\ c.sy = <<StartSym(G)>> /\ c.pos = Len(input) + 1
+\* start symbol, the whole inp was consumed, and every handle was right
+SoundCfg(G, inp, cf) == cf.dok /\ cf.sy = <<StartSym(G)>> /\ cf.pos = Len(inp) + 1
 
 -----------------------------------------------------------------------------
 (* The specification's own LALR(1) table for G (used as the reference for    *)
 (* conflict-free grammars; cells with 3+ candidates or other don't-cares      *)
 (* become errors and make the grammar "not conflict-free").                   *)
-\* order: the LR(0) states as a sequence (start state first); la: look-aheads
+\* order: the LR(0) states as a sequence (start state first); lah: look-aheads
 \* on reduce points.  Both are passed in as already computed values.
 StateOrder(G, S0) == <<Start0(G)>> \o SetToSeq(S0 \ {Start0(G)})
 NumOf(order, I) == CHOOSE n \in DOMAIN order : order[n] = I
-SpecTabFrom(G, order, la) ==
+\* (top-level operator on purpose: a constant definition whose body contains a LET-defined operator WITH
+\* parameters is not precomputed by TLC but re-evaluated on every use)
+SpecCell(G, order, lah, I, a) ==
+  LET e == CellAct(G, lah, I, a) IN
+  IF e.k = "s" THEN [k |-> "s", n |-> NumOf(order, Goto0(G, I, a))]
+  ELSE IF e.k = "dc" THEN ErrAct ELSE e
+SpecTabFrom(G, order, lah) ==
   LET T == DeclTerms(G) \cup {End}
-      cell(I, a) == LET e == CellAct(G, la, I, a) IN
-                    IF e.k = "s" THEN [k |-> "s", n |-> NumOf(order, Goto0(G, I, a))]
-                    ELSE IF e.k = "dc" THEN ErrAct ELSE e
-  IN [ action |-> TLCEval([n \in DOMAIN order |-> TLCEval([a \in T |-> cell(order[n], a)])]),
+  IN [ action |-> TLCEval([n \in DOMAIN order |-> TLCEval([a \in T |-> SpecCell(G, order, lah, order[n], a)])]),
        goto   |-> TLCEval([n \in DOMAIN order |-> TLCEval([A \in NT(G) |->
                       IF A \in NextSyms(G, order[n]) THEN NumOf(order, Goto0(G, order[n], A)) ELSE 0])]),
-       conflictfree |-> ConflictCells(G, la, SeqRange(order), T) = {},
+       conflictfree |-> ConflictCells(G, lah, SeqRange(order), T) = {},
        \* every conflict cell is decided by the rules of C04 (no don't-care cell)
        decided |-> \A I \in SeqRange(order) : \A a \in T :
-                     /\ CellAct(G, la, I, a).k # "dc"
-                     /\ NCand(G, la, I, a) = 2 => \A r \in CandReds(G, la, I, a) : ~G.rules[r].precdc,
+                     /\ CellAct(G, lah, I, a).k # "dc"
+                     /\ NCand(G, lah, I, a) = 2 => \A r \in CandReds(G, lah, I, a) : ~G.rules[r].precdc,
        nstates |-> Len(order) ]
 SpecOf(G) == LET S0 == States0(G) IN SpecTabFrom(G, StateOrder(G, S0), LADef(G))
 =============================================================================
